@@ -6,6 +6,7 @@ import (
 	"flag"
 	"fmt"
 	"os"
+	"runtime/pprof"
 	"strings"
 	"time"
 
@@ -26,7 +27,16 @@ func main() {
 	tier := flag.String("tier", "quick", "quick | thorough")
 	maxDec := flag.Int("maxdecisions", 0, "symbolic decisions per path")
 	caseCap := flag.Int("casecap", 0, "cap for case-splitting symbolic sizes/indices")
+	cpuprof := flag.String("cpuprofile", "", "write a CPU profile")
 	flag.Parse()
+	if *cpuprof != "" {
+		f, err := os.Create(*cpuprof)
+		if err != nil {
+			fatal(err)
+		}
+		pprof.StartCPUProfile(f)
+		defer pprof.StopCPUProfile()
+	}
 
 	cfg := interp.Config{Dir: *dir, HarnessPkg: *pkg, Workers: *workers, MaxSteps: *maxSteps,
 		MaxPaths: *maxPaths, Solver: *solver, Timeout: *timeout, CaseCap: *caseCap, MaxDecisions: *maxDec, Patterns: []string{"."}}
